@@ -410,7 +410,10 @@ func Run(peer *Peer, torEvent chan<- TorEvent, torDone <-chan struct{},
 				return err
 			}
 		case <-ticker.C:
-			expired := expireRequests(peer)
+			expired, err := expireRequests(peer)
+			if err != nil {
+				return err
+			}
 			if expired {
 				maybeRequest(peer)
 			}
@@ -445,9 +448,9 @@ func Run(peer *Peer, torEvent chan<- TorEvent, torDone <-chan struct{},
 
 // expireRequests is called periodically to prune any requests that we
 // have cancelled or that have been in flight for too long.
-func expireRequests(peer *Peer) bool {
+func expireRequests(peer *Peer) (bool, error) {
 	if peer.requests.Requested() == 0 {
-		return false
+		return false, nil
 	}
 
 	// Drop any requests that have been in the queue for too long.
@@ -466,16 +469,22 @@ func expireRequests(peer *Peer) bool {
 	}
 	t1 := time.Now().Add(-to)
 
+	// A request is forgotten once it has been cancelled for long enough,
+	// so a Cancel that could not be written must not go unnoticed.
+	var err error
 	dropped := peer.requests.Expire(
 		t0, t1,
 		func(index uint32) {
 			drop(peer, index)
 		},
 		func(index uint32) {
-			docancel(peer, index)
+			e := docancel(peer, index)
+			if err == nil {
+				err = e
+			}
 		},
 	)
-	return dropped
+	return dropped, err
 }
 
 func handleEvent(peer *Peer, c PeerEvent) error {
@@ -537,14 +546,20 @@ func handleEvent(peer *Peer, c PeerEvent) error {
 		if peer.Info == nil {
 			return ErrMetadataIncomplete
 		}
-		cancel(peer, c.Chunk)
+		err := cancel(peer, c.Chunk)
+		if err != nil {
+			return err
+		}
 	case PeerCancelPiece:
 		if peer.Info == nil {
 			return ErrMetadataIncomplete
 		}
 		cpp := uint32(peer.Pieces.PieceSize()) / config.ChunkSize
 		for i := 0; i < int(cpp); i++ {
-			cancel(peer, c.Index*cpp+uint32(i))
+			err := cancel(peer, c.Index*cpp+uint32(i))
+			if err != nil {
+				return err
+			}
 		}
 	case PeerInterested:
 		peer.shouldInterested = c.Interested
